@@ -8,6 +8,7 @@
     echo       copy bytes as they arrive (like cat): partial lines are echoed
     early      answer "<early>" to every line as soon as its first byte arrives
     stdio      default stdio buffering of a pipe (like `tr`/`sed` without -u)
+  MODE+num makes the child stateful: the answer to its n-th line (from 0) is "n:<" + L.upper() + ">".
   The answer to line L is "<" + L.upper() + ">" for eager/block/readall/stdio and L itself for echo.
   --log FILE   append every line received on stdin to FILE (what the child was given)
   --exit N     exit status after end of input
@@ -22,7 +23,14 @@ CR_TAIL = False
 FIELD3 = False
 
 
+NUMBER = None     # "+num": a STATEFUL child; the answer to its n-th line (from 0) starts with "n:"
+
+
 def answer(line):
+    global NUMBER
+    if NUMBER is not None:
+        NUMBER += 1
+        return b"%d:<" % (NUMBER - 1) + line.upper() + b">"
     if FIELD3:   # print the third tab-separated field (empty if absent or empty)
         f = line.split(b"\t")
         return f[2] if len(f) > 2 else b""
@@ -32,7 +40,10 @@ def answer(line):
 def main():
     args = sys.argv[1:]
     mode = args[0] if args else "eager"
-    global CR_TAIL, FIELD3
+    global CR_TAIL, FIELD3, NUMBER
+    if mode.endswith("+num"):     # answers are numbered: depends on how many lines the child has seen
+        NUMBER = 0
+        mode = mode[:-4]
     if mode.endswith("+f3"):      # answers = third tab-separated field of the line
         FIELD3 = True
         mode = mode[:-3]
